@@ -64,17 +64,21 @@ func peerCtx(id hotstuff.ID) gorums.ServerCtx {
 
 // subject is a fully wired replica (id 1) behind the real service implementation.
 type subject struct {
-	w     *vk.World
-	node  *vk.Node
-	impl  *serviceImpl
-	kauri *comm.Kauri
-	km    *vk.Member
+	w      *vk.World
+	node   *vk.Node
+	impl   *serviceImpl
+	kauri  *comm.Kauri
+	km     *vk.Member
 	blocks []*hotstuff.Block
 	qcs    []hotstuff.QuorumCert
 	agg    bool
 	scheme string
 	cmdSeq uint64
+	idle   bool // no client commands: a view the subject leads finds nothing to propose
 }
+
+// subjectWithoutCommands makes newSubject build a replica whose command cache stays empty (idle-leader scenario).
+var subjectWithoutCommands bool
 
 func newSubject(n int, scheme string, cache uint, agg bool, state string, rng *vbase.Rng) *subject {
 	var opts []core.RuntimeOption
@@ -102,9 +106,10 @@ func newSubject(n int, scheme string, cache uint, agg bool, state string, rng *v
 	w.M(1).Sender.OnSend = func(vk.SentMsg) {} // what the subject sends is not needed here
 	srv := NewServer(w.M(1).EL, w.M(1).Logger, w.M(1).Cfg, w.M(1).Chain)
 	s.impl = &serviceImpl{srv}
-	for i := 0; i < 40; i++ {
+	for i := 0; i < 40 && !subjectWithoutCommands; i++ {
 		node.Cmds.Add(&clientpb.Command{ClientID: 9, SequenceNumber: uint64(i + 1), Data: []byte{byte(i)}})
 	}
+	s.idle = subjectWithoutCommands
 	node.Start()
 	node.Drain(1000)
 	// a Kauri instance on a separate member (tree-contribution messages)
@@ -161,6 +166,9 @@ func (s *subject) drainK() (pan any, site string) {
 
 // topUp keeps enough fresh commands cached so that a proposal by the subject never blocks the harness thread.
 func (s *subject) topUp() {
+	if s.idle {
+		return
+	}
 	for tries := 0; tries < 100; tries++ {
 		fresh, token, markers, ok := vk.CmdCacheFresh(s.node.Cmds)
 		if !ok || (fresh >= 8 && token) {
@@ -532,7 +540,9 @@ func (s *subject) qcVariants(full bool) []variant[*hotstuffpb.QuorumCert] {
 
 func (s *subject) tcVariants() []variant[*hotstuffpb.TimeoutCert] {
 	cur := s.node.VS.View()
-	tms := s.w.HonestTimeouts(cur, vk.IDs(s.w.N)[1:s.w.Q()+1], func(hotstuff.ID) hotstuff.QuorumCert { return hotstuff.NewQuorumCert(nil, 0, hotstuff.GetGenesis().Hash()) }, s.agg)
+	tms := s.w.HonestTimeouts(cur, vk.IDs(s.w.N)[1:s.w.Q()+1], func(hotstuff.ID) hotstuff.QuorumCert {
+		return hotstuff.NewQuorumCert(nil, 0, hotstuff.GetGenesis().Hash())
+	}, s.agg)
 	tc, _ := s.w.M(2).Auth.CreateTimeoutCert(cur, tms)
 	out := []variant[*hotstuffpb.TimeoutCert]{
 		{"absent", nil, false},
@@ -558,7 +568,9 @@ func (s *subject) genuineTCs() []variant[*hotstuffpb.TimeoutCert] {
 		if v < 1 {
 			continue
 		}
-		tms := s.w.HonestTimeouts(v, vk.IDs(s.w.N)[1:s.w.Q()+1], func(hotstuff.ID) hotstuff.QuorumCert { return hotstuff.NewQuorumCert(nil, 0, hotstuff.GetGenesis().Hash()) }, s.agg)
+		tms := s.w.HonestTimeouts(v, vk.IDs(s.w.N)[1:s.w.Q()+1], func(hotstuff.ID) hotstuff.QuorumCert {
+			return hotstuff.NewQuorumCert(nil, 0, hotstuff.GetGenesis().Hash())
+		}, s.agg)
 		tc, err := s.w.M(2).Auth.CreateTimeoutCert(v, tms)
 		if err != nil {
 			continue
@@ -844,6 +856,7 @@ func verifWire(p vbase.Params, r *vbase.Result) {
 		}
 	}
 	verifWireRogue(p, r, idx)
+	verifWireIdleLeader(p, r, idx+100)
 }
 
 // watch is a watchdog around one delivery: a handler that does not return within 30 s (no blocking call is
